@@ -159,10 +159,33 @@ def strip_verif(src, clean):
     """Blank the items / statements under `#[cfg(feature = "verif")]` (hooks are not part of the crate)."""
     out = list(clean)
     for m in re.finditer(r'#\[cfg\(\s*feature\s*=\s*"verif"\s*\)\]', src):
+        # the gated thing is an item, a statement, a struct field, a field of a struct literal or a match arm:
+        # it ends at the first `;` or `,` outside parentheses, at the end of its `{...}` block, or where the
+        # enclosing bracket closes
         j = m.end()
-        while j < len(clean) and clean[j] not in "{;":
+        depth = 0
+        end = None
+        while j < len(clean):
+            c = clean[j]
+            if c in "([":
+                depth += 1
+            elif c in ")]":
+                depth -= 1
+                if depth < 0:
+                    end = j
+                    break
+            elif c == "}" and depth == 0:
+                end = j
+                break
+            elif c == "{" and depth == 0:
+                end = match_brace(clean, j)
+                break
+            elif c in ";," and depth == 0:
+                end = j + 1
+                break
             j += 1
-        end = match_brace(clean, j) if j < len(clean) and clean[j] == "{" else j + 1
+        if end is None:
+            end = len(clean)
         for k in range(m.start(), min(end, len(clean))):
             if out[k] != "\n":
                 out[k] = " "
